@@ -21,7 +21,7 @@ import (
 
 func init() {
 	registerCheck("C12", checkC12)
-	vReplayers["C12"] = vtReplay
+
 	vtModels["udpmux"] = func(cfg json.RawMessage) vtModel { return newMuxModel(cfg) }
 }
 
